@@ -8,6 +8,7 @@ import (
 	"os"
 	"path/filepath"
 	"regexp"
+	"sort"
 	"strconv"
 	"strings"
 	"sync"
@@ -967,6 +968,21 @@ func init() {
 					}
 				})
 				r.Extra["work_families"] = len(c07WorkFamilies)
+				// the counts themselves, and the families whose work does not grow with the size parameter (the input is
+				// rejected early or not consumed: such a family measures nothing and is listed so that it can be seen)
+				counts := map[string][6]int64{}
+				var flat []string
+				c07WorkSeen.Range(func(k, v interface{}) bool {
+					w := v.([6]int64)
+					counts[k.(string)] = w
+					if float64(w[5]) < 2.5*float64(w[3]) {
+						flat = append(flat, k.(string))
+					}
+					return true
+				})
+				sort.Strings(flat)
+				r.Extra["work_statement_counts_gts_n_2n_4n_then_with_libraries"] = counts
+				r.Extra["work_families_not_growing"] = flat
 			} else {
 				r.Note("statement-count sub-check skipped: no instrumented helper binary")
 			}
